@@ -16,11 +16,12 @@ for i, d in enumerate(dirs):
         continue
     meta_p = os.path.join(d, "meta.json")
     meta = json.load(open(meta_p))
-    subprocess.run(["git", "-C", wt, "checkout", "-q", "--", "."])
+    subprocess.run(["git", "-C", wt, "reset", "-q", "--hard"])
     r = subprocess.run(["git", "-C", wt, "apply", os.path.join(d, "patch.diff")], stderr=subprocess.PIPE)
     if r.returncode != 0:
         r = subprocess.run(["git", "-C", wt, "apply", "--3way", os.path.join(d, "patch.diff")], stderr=subprocess.PIPE)
     if r.returncode != 0:
+        subprocess.run(["git", "-C", wt, "reset", "-q", "--hard"])
         meta["rerun"] = {"applies_to_head": False, "note": r.stderr.decode()[-300:]}
         json.dump(meta, open(meta_p, "w"), indent=1)
         print(os.path.basename(d.rstrip("/")), "PATCH DOES NOT APPLY")
@@ -31,8 +32,10 @@ for i, d in enumerate(dirs):
         p = subprocess.run(["/verif/check", pid, tier], stdout=subprocess.PIPE, stderr=subprocess.STDOUT, env=env, cwd="/verif")
         out = p.stdout.decode(errors="replace").splitlines()
         results[pid] = {"exit": p.returncode, "lines": [l for l in out if l.startswith("VIOLATION") or l.startswith("  ")][:4] + out[-1:]}
-    subprocess.run(["git", "-C", wt, "checkout", "-q", "--", "."])
+    subprocess.run(["git", "-C", wt, "reset", "-q", "--hard"])
     meta["rerun"] = {"applies_to_head": True, "tier": tier, "results": results,
                      "caught": any(v["exit"] == 1 for v in results.values())}
+    if any(v["exit"] not in (0, 1) for v in results.values()):
+        print(os.path.basename(d.rstrip("/")), "MACHINERY ERROR", results)
     json.dump(meta, open(meta_p, "w"), indent=1)
     print(os.path.basename(d.rstrip("/")), "caught" if meta["rerun"]["caught"] else "MISSED", {k2: v["exit"] for k2, v in results.items()})
